@@ -256,7 +256,7 @@ theorem post_ret_handle {pre : Path} {c c' : Call} {r0 : Ret} {h : Handle}
 theorem post_ret_info_stat {pre : Path} {c c' : Call} {r0 : Ret} {i : Info}
     (hc : (∃ n, c = .stat n) ∨ (∃ n, c = .lstat n))
     (e : Ret.info i = prefixPost pre c c' r0) :
-    ∃ i0, r0 = .info i0 ∧ i = { i0 with name := reportedName pre c'.primaryPath i0.name } := by
+    ∃ i0, r0 = .info i0 ∧ i = { i0 with name := reportedInfoName pre c'.primaryPath i0.name } := by
   cases r0 with
   | handle h0 => rw [post_handle] at e; cases e
   | unit => rw [post_unit] at e; cases e
